@@ -333,4 +333,37 @@ def run(facts, tier, ctx):
     ed.findings = kept
     ed.require_floor(8, "VerifyError producing call sites in the encoder modules")
     out.append(ed)
+    # ------------------------------------------------------------ ENTRY/non-empty block
+    # the frame entry point must reject an empty frame buffer: everything below it (block-size code selection computes
+    # size - 1) assumes at least one sample.
+    from . import lib_effect as E
+    eb = RuleResult("ENTRY/non-empty-block", "the frame entry point verifies that the frame buffer holds at least one sample")
+    fe = facts.bodies.get("coding::encode_fixed_size_frame_impl")
+    if fe is None:
+        raise FactError("frame entry point implementation not found")
+    ectx = E.Ctx(facts)
+    ectx.open_loops = True
+    ectx.log_calls = r"verify_macro_impl$"
+    ectx.noinline = [r"^coding::encode_frame", r"verify_samples$"]
+    try:
+        E.Interp(ectx, fe).run()
+        okb = False
+        for c in ectx.calls:
+            cnd = E.strip_casts(c[1][0])
+            cs = E.canon(cnd)
+            if isinstance(cnd, tuple) and cnd[0] == "bin" and "filled_size" in cs and "arg2" in cs:
+                a, b_ = E.strip_casts(cnd[2]), E.strip_casts(cnd[3])
+                if (cnd[1] == "Ge" and E.is_c(b_) and b_[1] >= 1) or (cnd[1] == "Gt" and E.is_c(b_) and b_[1] >= 0) \
+                        or (cnd[1] == "Ne" and E.is_c(b_, 0)):
+                    okb = True
+        if okb:
+            eb.ok({"function": fe.id, "clause": "filled_size >= 1 verified before encoding", "verdict": "ok"})
+        else:
+            eb.fail(Finding("ENTRY/non-empty-block", fe.id, "empty-block-not-rejected", 0, fe.loc(),
+                            "encode_fixed_size_frame does not verify framebuf.filled_size() >= 1: an unfilled FrameBuf reaches "
+                            "BlockSizeSpec::from_size(0), which computes 0 - 1"))
+    except E.Undecided as e:
+        eb.fail(Finding("ENTRY/non-empty-block", fe.id, "undecided", 0, fe.loc(), str(e)))
+    eb.require_floor(1, "frame entry point")
+    out.append(eb)
     return out
